@@ -41,6 +41,12 @@ var divAllow = map[string]string{
 
 func c04() []*Ob {
 	return []*Ob{
+		{Prop: "C04", ID: "C04.10", Engine: "SIBLING+ORDER+DOM", Floor: 2,
+			Desc:  "a stored document is not pruned away before it is looked for: a sealed fraction is asked for an id only if its occupancy map (Info.Distribution) intersects the id's time, so the map has a bit for every document — BuildDistribution adds every id, on every iteration, and Add and IsIntersecting map timestamps with the same function (shared rule with C14.4); an id whose bucket was never set is dropped before groupIDsByFraction and Fetch answers with an empty entry for a document that is there",
+			Check: func(c *Ctx) { occupancyMapComplete(c) }},
+		{Prop: "C04", ID: "C04.9", Engine: "ORDER+DOM", Floor: 4,
+			Desc:  "a failed block read is not remembered: Cache.GetWithError hands the loader's error to the caller and removes the entry it had reserved (shared rule with C18.3) — a docs block whose one read failed would otherwise be served as an empty block to every later fetch until it is evicted",
+			Check: shared("C18.3")},
 		{Prop: "C04", ID: "C04.1", Engine: "DIV", Floor: 2,
 			Desc: "no integer division or modulo by a possibly-zero value in the packages on the fetch/search path (storeapi, fracmanager, frac, frac/processor, frac/lids, frac/token, seq, disk, util, cache, node, pattern)",
 			Check: func(c *Ctx) {
